@@ -916,6 +916,23 @@ def _random_copies(ctx):
                     pass
                 ctx.check("copies: a list passed to %s is not modified" % lab, arg == given, {"list": given}, given, arg, mechanism="arg:" + lab)
         ctx.case(("arg-random", len(lst)))
+    # a list as the second argument of chords.from_shorthand, with every kind of first argument (plain, slash, polychord, list)
+    from mingus.core import chords as _chords
+    for i in range(60):
+        root = rng.choice(names)
+        sh = root + rng.choice(["", "m", "7", "m7", "dim7", "sus4", "6/9", "13"])
+        k = rng.randrange(5)
+        first = sh if k == 0 else sh + "/" + rng.choice(names) if k == 1 else sh + "|" + rng.choice(names) + "m" if k == 2 \
+            else rng.choice(names) + "|" + sh + "/" + rng.choice(names) if k == 3 else [sh, rng.choice(names) + "m"]
+        given = [rng.choice(names) for _ in range(rng.randint(1, 4))]
+        arg = list(given)
+        try:
+            _chords.from_shorthand(first, arg)
+        except Exception:
+            pass
+        ctx.check("copies: a list passed to a library call is not modified", arg == given, {"call": "chords.from_shorthand(%r, list)" % (first,), "list": given},
+                  given, arg, mechanism="arg:from_shorthand-second")
+        ctx.case(("from_shorthand-second", k))
     # meters given as lists
     for i in range(30):
         m = [rng.randint(1, 12), rng.choice([1, 2, 4, 8, 16, 32])]
